@@ -297,6 +297,8 @@ def profile_for(pid, tier):
         G["kinds"].update({"vmap": 1, "repeat": 1, "switch": 1, "mask": 1})
     elif pid == "C03":
         P["ops"].update({"importance": 10, "update": 1})
+        P["oob_index"] = 0.1
+        G["kinds"].update({"vmap": 5, "scan": 4, "switch": 4, "mask": 3})
     elif pid == "C05":
         P["ops"].update({"update": 10})
         P["argchange"] = 0.6
